@@ -229,8 +229,17 @@ impl Property for C02 {
         } else {
             vec![]
         };
+        let spec_has_no_faults = spec.chmods.is_empty() && mutations.is_empty();
         let mut find = FindScenario::new(spec, vec![]);
-        find.gen_extras(rng, false);
+        // -xdev/-mount only where no link loops and nothing is unreadable (see gen_extras)
+        let xdev_ok = !cfg.allow_loops && spec_has_no_faults;
+        find.gen_extras(rng, xdev_ok);
+        if rng.chance(1, 10) {
+            find.starts_via_file = true;
+            if rng.chance(1, 3) {
+                find.files0_empty_after = Some(rng.usize_below(starts.len() + 1).min(starts.len().saturating_sub(0)));
+            }
+        }
         find.mutations = mutations;
         find.sink_plan = sink_plan;
         find.record_delim = 0;
@@ -279,6 +288,15 @@ impl Property for C02 {
             sorted: sc.sorted,
         };
         let mut rw = RefWalk::default();
+        if find.starts_via_file {
+            rep.probe("starting_points_through_files0_from");
+        }
+        if find.starts_via_file && find.files0_empty_after.is_some() {
+            // a zero-length name is diagnosed and skipped; whether it also makes the status
+            // non-zero is not for C02 to say
+            rw.diag_allowed = true;
+            rep.probe("zero_length_name_in_the_list");
+        }
         for s in &sc.starts {
             tree::ref_walk(&root, s, &wcfg, &mut rw);
         }
